@@ -265,6 +265,45 @@ def dep_change_job(arg):
     return rep
 
 
+def lazy_attr_job(arg):
+    """An accepted module that provides a name lazily (module-level __getattr__, PEP 562): a dry run of a function that
+    mentions that name runs no user code - the hook included."""
+    stages, store_kind, idx = arg
+    rep = core.Report("C15")
+    rep.evaluations = 1
+    pkg = "c15g%d" % idx
+    files = {
+        pkg + "/__init__.py": "",
+        pkg + "/lazy.py": "from vp import vlog\n\nPLAIN = 2\n\n\ndef __getattr__(name):\n    vlog.hit('module_getattr:' + name)\n    if name == 'FACTOR':\n        return 3\n    raise AttributeError(name)\n",
+        pkg + "/main.py": "import dds\nfrom vp import vlog\nfrom %s import lazy\nimport %s.lazy\n\n\ndef K():\n    vlog.hit('K')\n    return ('K', lazy.FACTOR, %s.lazy.FACTOR, lazy.PLAIN)\n\n\ndef main():\n    vlog.hit('main')\n    return ('main', dds.keep('/c15g/k', K))\n" % (pkg, pkg, pkg),
+    }
+    case = {"lazy_attr": True, "stages": stages, "store": store_kind, "idx": idx}
+    ent = {"style": "eval", "module": pkg + ".main", "func": "main", "args_src": "()"}
+    with core.Scratch("vp_c15g_") as td:
+        root = os.path.join(td, "code")
+        os.makedirs(root)
+        o = core.fork_call(run_segment, {"mode": "impl", "root": root, "accept": [pkg], "store": {"kind": store_kind, "dir": os.path.join(td, "store")},
+                                         "steps": [{"write": files, "how": "import", "modules": [pkg + ".main"], "entry": dict(ent, options={"dds_stages": stages})}, {"how": "none", "entry": ent}]}, timeout=300)
+    if isinstance(o, core.JobFailed):
+        rep.inconclusive.append("lazy-attr worker: %r" % (o,))
+        return rep
+    dry, full = o["steps"]
+    for x in (dry, full):
+        if "setup_error" in x:
+            rep.inconclusive.append("setup error: %s" % x["setup_error"][-300:])
+            return rep
+    rep.count("dry_runs")
+    if dry["result"][0] != "ok":
+        rep.violate("dry run (stages %r) over a module with a lazy attribute raised %s(%s)" % (stages, dry["result"][1], dry["result"][2][:120]), case, mechanism="restricted-run-raised")
+    elif dry["log"]:
+        rep.violate("dry run (stages %r) ran user code: %r" % (stages, dry["log"][:4]), case, mechanism="dry-run-ran-user-code")
+    if full["result"][0] != "ok" or pickle.loads(full["result"][1]) != ("main", ("K", 3, 3, 2)):
+        rep.violate("full evaluation after the dry run returned %s" % (full["result"][2][:100] if full["result"][0] == "ok" else full["result"][1:3],), case, mechanism="followup-wrong-value")
+    else:
+        rep.nontriv(("c15lazy", repr(stages), store_kind))
+    return rep
+
+
 def run(tier, seed):
     rep = core.Report("C15")
     rng = core.rng_for(seed, "c15")
@@ -308,8 +347,9 @@ def run(tier, seed):
                     if tier == "quick" and (k + vi + len(how) + len(store_kind)) % 2:
                         continue
                     djobs.append((stages, how, store_kind, len(djobs)))
-    results = core.fork_map(lambda j: {"o": orphan_job, "c": case_job, "d": dep_change_job}[j[0]](j[1]), [("c", j) for j in jobs] + [("o", j) for j in ojobs] + [("d", j) for j in djobs], timeout=900)
-    for j, r in zip(jobs + [None] * (len(ojobs) + len(djobs)), results):
+    gjobs = [(stages, sk, gi) for gi, (stages, sk) in enumerate([(["analysis"], "local"), (["ANALYSIS", "STORE_INSPECT"], "memory"), (["analysis"], "local_lru"), ([], "local")])]
+    results = core.fork_map(lambda j: {"o": orphan_job, "c": case_job, "d": dep_change_job, "g": lazy_attr_job}[j[0]](j[1]), [("c", j) for j in jobs] + [("o", j) for j in ojobs] + [("d", j) for j in djobs] + [("g", j) for j in gjobs], timeout=900)
+    for j, r in zip(jobs + [None] * (len(ojobs) + len(djobs) + len(gjobs)), results):
         if isinstance(r, core.JobFailed):
             rep.inconclusive.append("case: %r" % (r,))
             continue
@@ -328,6 +368,9 @@ def run(tier, seed):
 def replay(payload):
     rep = core.Report("C15")
     c = payload["case"]
+    if c.get("lazy_attr"):
+        rep.merge(lazy_attr_job((c["stages"], c["store"], c["idx"])))
+        return rep
     if c.get("dep_change"):
         rep.merge(dep_change_job((c["stages"], c["how"], c["store"], c["idx"])))
         return rep
